@@ -204,7 +204,12 @@ def replay_scenario(ctx, scn, scheme, TaxonomyTree, get_taxonomy_tree, variants=
         bad.append(('from_label_columns', f'raised {type(e).__name__}: {e}'))
     # malformed variants
     if variants:
+        n_two = 0
         for v in scn['variants']:
+            if v['edit'][0] == 'empty_then_twice':
+                n_two += 1
+                if ctx.tier == 'quick' and n_two > 6:
+                    continue                    # quick: six of the two-edit variants per shape
             d2 = taxo.apply_edit(d, tj, nm, v['edit'])
             try:
                 with warnings.catch_warnings():
@@ -216,6 +221,23 @@ def replay_scenario(ctx, scn, scheme, TaxonomyTree, get_taxonomy_tree, variants=
             if accepted != v['accepts']:
                 bad.append((f'variant:{v["edit"][0]}',
                             f'edit {v["edit"]}: code accepts={accepted}, spec accepts={v["accepts"]}'))
+            if v['edit'][0] == 'remove_link':
+                # the same orphaned child, the parent's list padded back to its length with a sibling listed twice
+                lst = d2[nm.level(v['edit'][1])][nm.node(v['edit'][1], v['edit'][2])]
+                if lst:
+                    d3 = copy.deepcopy(d2)
+                    d3[nm.level(v['edit'][1])][nm.node(v['edit'][1], v['edit'][2])] = lst + [lst[0]]
+                    try:
+                        with warnings.catch_warnings():
+                            warnings.simplefilter('ignore')
+                            TaxonomyTree(data=d3)
+                        acc3 = True
+                    except Exception:
+                        acc3 = False
+                    if acc3 != v['accepts']:
+                        bad.append(('variant:remove_link+listed_twice',
+                                    f'edit {v["edit"]} with a sibling listed twice: code accepts={acc3}, spec '
+                                    f'accepts={v["accepts"]}'))
     return bad
 
 
